@@ -1,1 +1,295 @@
-(* C09 stub: to be written *)
+(* C09 -- the public API as a PURE function over an append-only store of immutable values.
+   A history is a list of calls referring to earlier values by store index.
+   [sem] appends exactly one entry per call (so store index = position in the history) and never
+   modifies an existing entry, except for [CApply _ sm true] (in-place application), where the API
+   contract says that the state matrix [sm] IS modified: the entry of [sm] is replaced.
+
+   The model is faithful to the code that exists (epgpy/operator.py, diff.py, functions.py):
+   - DiffOperator.__call__ (T, E, S, ScalarOp, MatrixOp ...): one semantics [dstep] for both modes;
+   - Operator.__call__ of a non-differentiable operator and of a MultiOperator: out of place the
+     result is built on StateMatrix.copy(), which has no order1/order2 attributes (partials dropped);
+     in place the partials are left untouched;
+   - StateMatrix.copy(): states/equilibrium/options copied, partials dropped;
+   - simulate(seq, init=sm, max_nstate=n, probe=p): runs on init.copy() with merged options, applies every
+     operator in place, records probe values.
+   Memory aliasing and process state cannot be exhibited here: the history correspondence of
+   props/c09.py checks that the implementation behaves like this pure function.                    *)
+From Coq Require Import List ZArith Lia Bool Arith.
+From EPG Require Import Scalar State Ops Diff.
+Import ListNotations.
+
+Section Purity.
+Variable S : ScalOps.
+Notation dstate := (dstate S).
+Notation dinstr := (dinstr S).
+Notation dop := (dop S).
+
+Inductive probe : Type :=
+| PF0 | PZ0
+| PJac (vars : list var)
+| PHess (vars : list var).
+
+Inductive item : Type := IOp (i : dinstr) | IProbe (p : probe).
+
+(* a state matrix value: states + partials, and the option max_nstate *)
+Record smval : Type := mkSmv { sv_d : dstate; sv_nmax : option nat }.
+
+Inductive value : Type :=
+| VSm (s : smval)
+| VOp (i : dinstr)              (* one operator instance *)
+| VMulti (l : list dinstr)      (* MultiOperator (flat list) *)
+| VProbe (p : probe)
+| VSeq (l : list item)          (* a (flattened) sequence: operators and probes *)
+| VRes (r : list (list S))      (* what simulate / acquire return: one list of numbers per acquisition *)
+| VNone                         (* placeholder appended by an in-place call *)
+| VErr.                         (* ill-typed call *)
+
+Inductive call : Type :=
+| CApply (op sm : nat) (inplace : bool)
+| CCopy (sm : nat)
+| CMul (a b : nat)
+| CMkSeq (refs : list nat)
+| CSimulate (seq : nat) (init : option nat) (nmax : option nat) (pr : option nat)
+| CAcquire (p sm : nat).
+
+Definition store := list value.
+Definition look (st : store) (r : nat) : value := nth r st VErr.
+
+(* references read by a call *)
+Definition refs (c : call) : list nat :=
+  match c with
+  | CApply o s _ => [o; s]
+  | CCopy s => [s]
+  | CMul a b => [a; b]
+  | CMkSeq l => l
+  | CSimulate q i _ p => q :: (match i with Some r => [r] | None => [] end) ++ (match p with Some r => [r] | None => [] end)
+  | CAcquire p s => [p; s]
+  end.
+
+(* ---- operators ---- *)
+(* sm.options["max_nstate"] overrides the operator's own nmax (shift.S._apply) *)
+Definition with_nmax (n : option nat) (i : dinstr) : dinstr :=
+  match n with
+  | None => i
+  | Some m =>
+    match i with
+    | DOp o =>
+      match d_lin S o with
+      | LShift d _ => DOp (mkDop (LShift d (Some m)) (d_darrs S o) (d_d2arrs S o) (d_order1 S o) (d_order2 S o)
+                                 (d_auto S o) (d_params2 S o))
+      | _ => i
+      end
+    | DPlain (OShift d _) => DPlain (OShift d (Some m))
+    | _ => i
+    end
+  end.
+
+(* the zeroth-order operator of an instruction (what _apply does to the states) *)
+Definition prim_op (i : dinstr) : op S :=
+  match i with DOp o => lin_op S (d_lin S o) | DPlain o => o end.
+
+Definition drop_partials (d : dstate) : dstate := mkD (d_main d) [] [] (d_ok d).
+
+(* in place: DiffOperator.__call__ / Operator.__call__ with inplace=True  ==  Diff.dstep *)
+Definition apply_in (n : option nat) (i : dinstr) (d : dstate) : dstate := dstep (with_nmax n i) d.
+
+(* out of place: the same for a DiffOperator; a plain operator works on sm.copy() (no partials) *)
+Definition apply_out (n : option nat) (i : dinstr) (d : dstate) : dstate :=
+  match i with
+  | DOp _ => dstep (with_nmax n i) d
+  | DPlain _ => dstep (with_nmax n i) (drop_partials d)
+  end.
+
+(* MultiOperator: Operator.__call__ + for op in operators: op._apply(sm) -- partials never touched *)
+Definition multi_main (n : option nat) (l : list dinstr) (d : dstate) : sm S :=
+  run (map (fun i => prim_op (with_nmax n i)) l) (d_main d).
+Definition multi_in (n : option nat) (l : list dinstr) (d : dstate) : dstate :=
+  mkD (multi_main n l d) (d_p1 d) (d_p2 d) (d_ok d).
+Definition multi_out (n : option nat) (l : list dinstr) (d : dstate) : dstate :=
+  mkD (multi_main n l d) [] [] (d_ok d).
+
+Definition apply_value (vo vs : value) (inplace : bool) : value :=
+  match vo, vs with
+  | VOp i, VSm s =>
+      VSm (mkSmv ((if inplace then apply_in else apply_out) (sv_nmax s) i (sv_d s)) (sv_nmax s))
+  | VMulti l, VSm s =>
+      VSm (mkSmv ((if inplace then multi_in else multi_out) (sv_nmax s) l (sv_d s)) (sv_nmax s))
+  | _, _ => VErr
+  end.
+
+Definition copy_value (vs : value) : value :=
+  match vs with
+  | VSm s => VSm (mkSmv (drop_partials (sv_d s)) (sv_nmax s))
+  | _ => VErr
+  end.
+
+Definition ops_of (v : value) : option (list dinstr) :=
+  match v with VOp i => Some [i] | VMulti l => Some l | _ => None end.
+
+(* Operator.__mul__ : a NEW MultiOperator of both operand lists *)
+Definition mul_value (a b : value) : value :=
+  match ops_of a, ops_of b with
+  | Some x, Some y => VMulti (x ++ y)
+  | _, _ => VErr
+  end.
+
+Definition items_of (v : value) : option (list item) :=
+  match v with
+  | VOp i => Some [IOp i]
+  | VMulti l => Some (map IOp l)
+  | VProbe p => Some [IProbe p]
+  | VSeq l => Some l
+  | _ => None
+  end.
+
+Fixpoint mkseq_items (vs : list value) : option (list item) :=
+  match vs with
+  | [] => Some []
+  | v :: t => match items_of v, mkseq_items t with
+              | Some x, Some y => Some (x ++ y)
+              | _, _ => None
+              end
+  end.
+Definition mkseq_value (vs : list value) : value :=
+  match mkseq_items vs with Some l => VSeq l | None => VErr end.
+
+(* ---- probes ---- *)
+Definition z0 (s : sm S) : S := fz (centre (st s)).
+Definition acquire (p : probe) (d : dstate) : list S :=
+  match p with
+  | PF0 => [f0 S (d_main d)]
+  | PZ0 => [z0 (d_main d)]
+  | PJac vars => jacobian d vars
+  | PHess vars => concat (hessian d vars)
+  end.
+
+Definition acquire_value (vp vs : value) : value :=
+  match vp, vs with
+  | VProbe p, VSm s => VRes [acquire p (sv_d s)]
+  | _, _ => VErr
+  end.
+
+(* ---- simulate ---- *)
+(* simulate_simple: every operator in place; at a probe record (custom probe or the probe itself) *)
+Fixpoint sim_loop (n : option nat) (custom : option probe) (items : list item) (d : dstate)
+  : list (list S) :=
+  match items with
+  | [] => []
+  | IOp i :: t => sim_loop n custom t (apply_in n i d)
+  | IProbe p :: t => acquire (match custom with Some q => q | None => p end) d :: sim_loop n custom t d
+  end.
+
+Definition merge_nmax (opt init : option nat) : option nat :=
+  match opt with Some m => Some m | None => init end.
+
+Definition simulate_value (vq : value) (vi : option value) (nmax : option nat) (vp : option value) : value :=
+  let start :=
+    match vi with
+    | None => Some (dinit (init k1), nmax)
+    | Some (VSm s) => Some (dinit (d_main (sv_d s)), merge_nmax nmax (sv_nmax s))
+    | Some _ => None
+    end in
+  let custom :=
+    match vp with
+    | None => Some None
+    | Some (VProbe p) => Some (Some p)
+    | Some _ => None
+    end in
+  match vq, start, custom with
+  | VSeq l, Some (d, n), Some cp => VRes (sim_loop n cp l d)
+  | _, _, _ => VErr
+  end.
+
+(* ---- the API as a function of the ARGUMENT VALUES only ---- *)
+Definition call_fun (c : call) (args : list value) : value :=
+  match c, args with
+  | CApply _ _ inplace, [vo; vs] => apply_value vo vs inplace
+  | CCopy _, [vs] => copy_value vs
+  | CMul _ _, [a; b] => mul_value a b
+  | CMkSeq _, vs => mkseq_value vs
+  | CSimulate _ None n None, [vq] => simulate_value vq None n None
+  | CSimulate _ (Some _) n None, [vq; vi] => simulate_value vq (Some vi) n None
+  | CSimulate _ None n (Some _), [vq; vp] => simulate_value vq None n (Some vp)
+  | CSimulate _ (Some _) n (Some _), [vq; vi; vp] => simulate_value vq (Some vi) n (Some vp)
+  | CAcquire _ _, [vp; vs] => acquire_value vp vs
+  | _, _ => VErr
+  end.
+
+Definition result (st : store) (c : call) : value := call_fun c (map (look st) (refs c)).
+
+Fixpoint upd {A} (k : nat) (v : A) (l : list A) : list A :=
+  match l, k with
+  | [], _ => []
+  | _ :: t, O => v :: t
+  | x :: t, Datatypes.S k' => x :: upd k' v t
+  end.
+
+Definition is_sm (v : value) : bool := match v with VSm _ => true | _ => false end.
+
+(* the only call that replaces an entry: in-place application, on its state-matrix argument,
+   and only when the call is well-typed (result is a state matrix) *)
+Definition inplace_target (st : store) (c : call) : option nat :=
+  match c with
+  | CApply _ s true => if is_sm (result st c) && is_sm (look st s) then Some s else None
+  | _ => None
+  end.
+
+Definition sem (st : store) (c : call) : store * value :=
+  let v := result st c in
+  match inplace_target st c with
+  | Some s => (upd s v st ++ [VNone], v)
+  | None => (st ++ [v], v)
+  end.
+
+Definition history := list call.
+
+Fixpoint run_hist (st : store) (h : history) : store * list value :=
+  match h with
+  | [] => (st, [])
+  | c :: t => let (st', v) := sem st c in
+              let (st'', vs) := run_hist st' t in (st'', v :: vs)
+  end.
+
+Definition out_of_place (c : call) : bool :=
+  match c with CApply _ _ true => false | _ => true end.
+
+End Purity.
+
+Arguments IOp {S}. Arguments IProbe {S}.
+Arguments mkSmv {S}. Arguments sv_d {S}. Arguments sv_nmax {S}.
+Arguments VSm {S}. Arguments VOp {S}. Arguments VMulti {S}. Arguments VProbe {S}. Arguments VSeq {S}.
+Arguments VRes {S}. Arguments VNone {S}. Arguments VErr {S}.
+Arguments look {S}. Arguments result {S}. Arguments sem {S}. Arguments run_hist {S}.
+Arguments call_fun {S}. Arguments apply_value {S}. Arguments copy_value {S}. Arguments mul_value {S}.
+Arguments mkseq_value {S}. Arguments simulate_value {S}. Arguments acquire_value {S}. Arguments acquire {S}.
+Arguments apply_in {S}. Arguments apply_out {S}. Arguments multi_in {S}. Arguments multi_out {S}.
+Arguments drop_partials {S}. Arguments with_nmax {S}. Arguments prim_op {S}. Arguments sim_loop {S}.
+Arguments inplace_target {S}. Arguments is_sm {S}. Arguments upd {A}.
+
+(* ---- correspondence verdict (executed over QIops by props/c09.py) ---- *)
+Section Check.
+Variable S : ScalOps.
+
+Inductive obsv : Type :=
+| ObSm (m : sm S) (o1 : list (nat * sm S)) (o2 : list ((nat * nat) * sm S))
+| ObRes (r : list (list S))
+| ObNone.
+
+Definition value_obs_eqb (v : value S) (o : obsv) : bool :=
+  match o, v with
+  | ObNone, _ => true
+  | ObSm m o1 o2, VSm s => dstate_eqb (sv_d s) m o1 o2
+  | ObRes r', VRes r => all2 (all2 (@keqb S)) r r'
+  | _, _ => false
+  end.
+
+(* every call result equals the observed result, and at the end every listed store entry equals the
+   observed final content of the corresponding implementation object *)
+Definition hist_ok (st0 : list (value S)) (h : list call) (obs : list obsv) (final : list (nat * obsv)) : bool :=
+  let (st, vs) := run_hist st0 h in
+  all2 value_obs_eqb vs obs &&
+  forallb (fun ko => value_obs_eqb (look st (fst ko)) (snd ko)) final.
+
+End Check.
+
+Arguments ObSm {S}. Arguments ObRes {S}. Arguments ObNone {S}. Arguments hist_ok {S}. Arguments value_obs_eqb {S}.
